@@ -23,6 +23,8 @@ import (
 	"sort"
 	"strconv"
 	"strings"
+	"syscall"
+	"time"
 
 	"shanhu.io/g/caco3"
 	"shanhu.io/g/lexing"
@@ -75,11 +77,16 @@ type fsetOp struct {
 	sel   []string
 	ign   []string
 	inc   []string
+	pre   string // build only: what sits at the rule's output path before the build (dangling|file|dir|inside|fifo)
 }
 
 func (o *fsetOp) line() string {
-	return fmt.Sprintf("%s p=%s tree=%s name=%s files=%s sel=%s ign=%s inc=%s", o.kind, hs(o.p), hl(o.tree),
+	l := fmt.Sprintf("%s p=%s tree=%s name=%s files=%s sel=%s ign=%s inc=%s", o.kind, hs(o.p), hl(o.tree),
 		hs(o.name), hl(o.files), hl(o.sel), hl(o.ign), hl(o.inc))
+	if o.pre != "" {
+		l += " pre=" + o.pre
+	}
+	return l
 }
 
 func parseFsetOp(ws []string) (*fsetOp, bool) {
@@ -100,6 +107,7 @@ func parseFsetOp(ws []string) (*fsetOp, bool) {
 		}
 	}
 	o.p, o.tree, o.name, o.files, o.sel, o.ign, o.inc = unhs(p), unhl(t), unhs(n), unhl(f), unhl(s), unhl(i), unhl(c)
+	o.pre, _ = get("pre")
 	return o, true
 }
 
@@ -606,6 +614,25 @@ func (c *ctx) judgeBuild(o *fsetOp) (out, key, desc string) {
 	os.WriteFile(bf, []byte(b.String()), 0o644)
 
 	target := caco3.VerifMakeRelPath(o.p, o.name)
+	outPath := filepath.Join(root, "out", filepath.FromSlash(target)+".fileset")
+	if o.pre != "" { // something already sits where the rule writes its output
+		os.MkdirAll(filepath.Dir(outPath), 0o755)
+		switch o.pre {
+		case "dangling":
+			os.Symlink(filepath.Join(c.treeDir, "escaped.txt"), outPath)
+		case "file":
+			os.Symlink(filepath.Join(c.treeDir, "outside.txt"), outPath)
+		case "dir":
+			os.MkdirAll(filepath.Join(c.treeDir, "outdir"), 0o755)
+			os.Symlink(filepath.Join(c.treeDir, "outdir"), outPath)
+		case "inside":
+			os.Symlink(filepath.Join(root, "escaped-into-root.txt"), outPath)
+		case "fifo":
+			syscall.Mkfifo(outPath, 0o644)
+		default:
+			return "bad-op", "", ""
+		}
+	}
 	before := snapshot(c.treeDir)
 	c.j.Risky(o.line())
 	builder, err := caco3.NewBuilder(root, &caco3.Config{Root: root})
@@ -616,14 +643,25 @@ func (c *ctx) judgeBuild(o *fsetOp) (out, key, desc string) {
 		return "err-workspace", "", ""
 	}
 	var pmsg string
-	errs := func() (es []*lexing.Error) {
+	var errs []*lexing.Error
+	returned := hx.WithTimeout(20*time.Second, func() {
 		defer func() {
 			if x := recover(); x != nil {
 				pmsg = fmt.Sprint(x)
 			}
 		}()
-		return builder.Build([]string{target})
-	}()
+		errs = builder.Build([]string{target})
+	})
+	if !returned {
+		// release a writer blocked on a FIFO, then report
+		if f, err := os.OpenFile(outPath, os.O_RDONLY|syscall.O_NONBLOCK, 0); err == nil {
+			time.Sleep(200 * time.Millisecond)
+			f.Close()
+		}
+		c.j.Clear()
+		return "hang", "output-written-through-special-file", fmt.Sprintf(
+			"building file_set %q did not return: the %s left at its output path was written to instead of being replaced", o.name, o.pre)
+	}
 	if pmsg != "" {
 		c.j.Clear()
 		return "panic", "build-panic", fmt.Sprintf("building file_set %q in package %q panicked: %s", o.name, o.p, pmsg)
@@ -631,6 +669,10 @@ func (c *ctx) judgeBuild(o *fsetOp) (out, key, desc string) {
 	c.j.Clear()
 	after := snapshot(c.treeDir)
 	if ch := changedOutside(before, after, "ws/out"); len(ch) > 0 {
+		if o.pre != "" {
+			return "changed", "output-written-through-symlink", fmt.Sprintf(
+				"building file_set %q with a %s symlink left at its output path wrote through the link, outside <root>/out: %s", o.name, o.pre, strings.Join(ch, " "))
+		}
 		return "changed", "write-outside-out", fmt.Sprintf(
 			"building file_set %q in package %q changed the file system outside <root>/out: %s", o.name, o.p, strings.Join(ch, " "))
 	}
@@ -1201,6 +1243,57 @@ func (g *gen) climbingSelects() {
 	}
 }
 
+// something already sits at the output path of the rule: a dangling symlink to
+// outside the workspace, a symlink to an existing outside file, to a directory,
+// to a place in the root, a FIFO; the build replaces it and writes nothing elsewhere
+func (g *gen) staleOutputs() {
+	tree := []string{"p/BUILD.caco3", "p/a.txt", "p/foo/b.txt"}
+	for _, pre := range []string{"dangling", "file", "dir", "inside", "fifo"} {
+		for _, name := range []string{"zzset", "sub/zz", "../../zz"} {
+			o := &fsetOp{kind: "build", p: "p", tree: tree, name: name, sel: []string{"**"}, pre: pre}
+			g.add(o.line(), true)
+			g.rep.Count("build:stale-object-at-output:" + pre)
+		}
+		o := &fsetOp{kind: "build", p: "p", tree: tree, name: "zzset", files: []string{"a.txt"}, pre: pre}
+		g.add(o.line(), true)
+	}
+}
+
+// files named exactly like the built-in exclusions of recursive selects, with
+// siblings sorting before and after them: only the excluded file is left out
+func (g *gen) exclusionSiblings() {
+	excl := []string{".gitignore", "COPYING", "tags", ".DS_Store", ".git"}
+	sibs := []string{"-a", ".a", "A", "D", "a", "m", "u", "z", "~z"}
+	for _, x := range excl {
+		for _, where := range []string{"p/d", "p", "p/d/e"} {
+			var t []string
+			for _, s := range sibs {
+				t = append(t, where+"/"+s)
+			}
+			if x == ".git" {
+				t = append(t, where+"/.git/config") // a directory: skipped as a whole
+			} else {
+				t = append(t, where+"/"+x)
+			}
+			t = append(t, "p/zz/after.txt")
+			sort.Strings(t)
+			for _, sel := range []string{"**", "d/**", "d/e/**", "*", "d/*"} {
+				g.fsetOp("fset", "p", t, "s", nil, []string{sel}, nil, nil)
+			}
+			for _, d := range []string{"p", "p/d", "p/d/e", ""} {
+				g.add(fmt.Sprintf("walk tree=%s d=%s", hl(t), hs(d)), true)
+			}
+			g.rep.Count("fset+walk:excluded-name-with-siblings")
+		}
+	}
+	// all of them in one directory
+	t := []string{"p/d/.DS_Store", "p/d/.gitignore", "p/d/COPYING", "p/d/tags", "p/d/A", "p/d/a", "p/d/z", "p/d/.a", "p/d/x.caco3", "p/d/y"}
+	sort.Strings(t)
+	g.fsetOp("fset", "p", t, "s", nil, []string{"**"}, nil, nil)
+	g.fsetOp("build", "p", append([]string{"p/BUILD.caco3"}, t...), "zzset", nil, []string{"d/**"}, nil, nil)
+	g.add(fmt.Sprintf("walk tree=%s d=%s", hl(t), hs("p/d")), true)
+}
+
 func main() {
 	log.SetOutput(io.Discard)
 	f := hx.ParseFlags()
@@ -1250,6 +1343,8 @@ func main() {
 			g.treeOps(true, 1200)
 			g.malformedIgnores(true)
 			g.climbingSelects()
+			g.staleOutputs()
+			g.exclusionSiblings()
 		} else {
 			g.pathOps(4, false)
 			g.randomPathOps(2000)
@@ -1257,6 +1352,8 @@ func main() {
 			g.treeOps(false, 120)
 			g.malformedIgnores(false)
 			g.climbingSelects()
+			g.staleOutputs()
+			g.exclusionSiblings()
 		}
 		rep.Exhaustive = true
 		ops = g.ops
